@@ -294,18 +294,64 @@ impl<T: Payload> World<T> {
         let m = &self.m;
         let arena = &self.arena;
         let xid = m.id(x);
-        let list = m.list(m.n(x).loc);
-        let pos = list.iter().position(|k| *k == x).unwrap();
-        let (name, exp): (&'static str, Vec<Key>) = match it % 3 {
-            0 => ("children", m.n(x).kids.clone()),
-            1 => ("preceding_siblings", list[..=pos].iter().rev().copied().collect()),
-            _ => ("following_siblings", list[pos..].to_vec()),
+        let name: &'static str = ["children", "preceding_siblings", "following_siblings"][(it % 3) as usize];
+        // The reference sequence E is what plain forward iteration of the real iterator yields:
+        // the DoubleEndedIterator laws are laws of the iterator with itself, so C10 is decided
+        // model-free. (Whether E is the documented sequence is C09's business, checked below.)
+        let budget = 2 * arena.count() + 3;
+        let fwd = catch(|| {
+            let mut v: Vec<NodeId> = Vec::new();
+            let mut push_all = |it: &mut dyn Iterator<Item = NodeId>| {
+                for _ in 0..budget {
+                    match it.next() {
+                        Some(i) => v.push(i),
+                        None => return true,
+                    }
+                }
+                false
+            };
+            let fin = match it % 3 {
+                0 => push_all(&mut xid.children(arena)),
+                1 => push_all(&mut xid.preceding_siblings(arena)),
+                _ => push_all(&mut xid.following_siblings(arena)),
+            };
+            (v, fin)
+        });
+        let e: Vec<NodeId> = match fwd {
+            Ok((v, true)) => v,
+            Ok((_, false)) => {
+                viols.push(viol("C02", "iterator_not_finite", format!("{} of {}", name, slot_of(xid))));
+                return;
+            }
+            Err(p) => {
+                viols.push(viol("C10", "panic_in_iterator", p));
+                return;
+            }
         };
-        let parentless = m.parent(x).is_none();
+        let parentless;
+        if self.blind {
+            parentless = arena.get(xid).is_some_and(|n| n.parent().is_none());
+        } else {
+            let list = m.list(m.n(x).loc);
+            let pos = list.iter().position(|k| *k == x).unwrap();
+            let exp: Vec<Key> = match it % 3 {
+                0 => m.n(x).kids.clone(),
+                1 => list[..=pos].iter().rev().copied().collect(),
+                _ => list[pos..].to_vec(),
+            };
+            parentless = m.parent(x).is_none();
+            let em = self.ids(&exp);
+            if em != e {
+                viols.push(viol(
+                    "C09",
+                    "wrong_sequence",
+                    format!("{} from {}: got {} expected {}", name, slot_of(xid), ids_str(&e), ids_str(&em)),
+                ));
+            }
+        }
         if parentless && it % 3 != 0 && word.iter().any(|b| !*b) {
             self.stats.probe("back_pull_on_parentless_node");
         }
-        let e = self.ids(&exp);
         let word = word.to_vec();
         let r = catch(move || {
             let mut out: Vec<Viol> = Vec::new();
